@@ -405,3 +405,247 @@ int run_lin(const Args& a) {
     if (total_overlaps == 0) { rep.inconclusive("no two operations on one key overlapped in time"); }
     return rep.finish();
 }
+
+// ---------------------------------------------------------------------------------------------------
+// C01 micro-races: the same checker, but hundreds of thousands of tiny races (2..4 threads x 1..3 calls on
+// one or two keys) on small trees of changing shape, so that windows of a few instructions are hit.
+int run_lin_micro(const Args& a) {
+    uint64_t seed = a.num("seed", 1);
+    uint64_t races = a.num("races", 300000);
+    Report rep(a.str("prop", "C01"), "conc_lin_micro", seed);
+    rep.set_rule("tiny races: T in {2,3,4} persistent threads released together (random skew 0..400 pause cycles) perform 1..3 calls each (put / unique-put / get / remove, value lengths 24..300 B) on one or two "
+                 "hot keys; the tree is rebuilt every 4000 races with a new shape: hot key alone in the storage (emptied root, revival), first / middle / last entry of a border holding 2..15 entries (15: the "
+                 "next insert splits), under 40..300 fillers with interior levels, or inside a next layer (P8+x, P8 itself next to its link); every race is checked with the Wing-Gong-Lowe search "
+                 "including a quiescent read-back; walker + coherence check when the tree is rebuilt. distinct_nontrivial = distinct per-key sub-history patterns with >=1 overlapping pair");
+    yk::init();
+    Rng r(seed);
+    std::atomic<uint64_t> next_id{1};
+    std::string storage = "lm";
+    Session main_ses;
+    std::vector<std::string> hot;
+    std::vector<std::string> fillers;
+    LinChecker chk(200000);
+    uint64_t overlaps = 0;
+    const char* shape = "";
+    bool created = false;
+    struct Plan {
+        uint32_t key;
+        unsigned kind;
+        uint32_t len;
+    };
+    for (uint64_t rc = 0; rc < races && rep.violations() < 10; ++rc) {
+        if (rc % 4000 == 0) {
+            if (created) {
+                // quiescent cross-check of the tree that is being retired
+                Model model;
+                main_ses.reenter();
+                std::vector<std::string> all = fillers;
+                all.insert(all.end(), hot.begin(), hot.end());
+                for (auto& k : all) {
+                    std::pair<char*, std::size_t> o;
+                    if (yget(storage, k, o) == status::OK) { model[k] = std::string(o.first, o.second); }
+                }
+                main_ses.leave();
+                coherence_check(rep, storage, model, true, nullptr);
+                drain_alloc_problems(rep);
+                yk::delete_storage(storage);
+            }
+            yk::create_storage(storage);
+            created = true;
+            hot.clear();
+            fillers.clear();
+            unsigned sh = static_cast<unsigned>(r.below(6));
+            std::size_t nf = 0;
+            std::string pfx;
+            switch (sh) {
+                case 0: shape = "alone"; nf = 0; break;
+                case 1: shape = "small-border"; nf = r.range(1, 12); break;
+                case 2: shape = "border-14-or-15"; nf = r.range(13, 14); break;
+                case 3: shape = "interior-levels"; nf = r.range(40, 300); break;
+                case 4: shape = "next-layer"; nf = r.range(0, 14); pfx = std::string(8, 'P'); break;
+                default: shape = "next-layer-full"; nf = r.range(13, 40); pfx = std::string(8, 'P'); break;
+            }
+            for (std::size_t i = 0; i < nf; ++i) {
+                char b[16];
+                snprintf(b, sizeof b, "f%04zu", i * 2);
+                fillers.push_back(pfx + b);
+            }
+            // hot keys: before all fillers, between two fillers, after all fillers; in layered shapes also the 8-byte prefix itself
+            std::size_t nh = r.range(1, 2);
+            for (std::size_t i = 0; i < nh; ++i) {
+                char b[16];
+                switch (r.below(3)) {
+                    case 0: snprintf(b, sizeof b, "a%zu", i); break;
+                    case 1: snprintf(b, sizeof b, "f%04zu", (nf / 2) * 2 + 1); break;
+                    default: snprintf(b, sizeof b, "z%zu", i); break;
+                }
+                std::string k = pfx + b;
+                if (!pfx.empty() && r.chance(1, 4)) { k = pfx; }
+                if (std::find(hot.begin(), hot.end(), k) == hot.end()) { hot.push_back(k); }
+            }
+            main_ses.reenter();
+            for (auto& f : fillers) { yput(main_ses.tok, storage, f, make_value(next_id.fetch_add(1), f, 24)); }
+            main_ses.leave();
+            rep.count(std::string("trees_") + shape);
+        }
+        int T = static_cast<int>(r.range(2, 4));
+        // plans
+        std::vector<std::vector<Plan>> plans(T);
+        unsigned mix = static_cast<unsigned>(r.below(4));
+        for (int t = 0; t < T; ++t) {
+            std::size_t n = r.range(1, 3);
+            for (std::size_t i = 0; i < n; ++i) {
+                unsigned x = static_cast<unsigned>(r.below(100));
+                unsigned kind;
+                switch (mix) {
+                    case 0: kind = x < 40 ? OP_GET : (x < 70 ? OP_REMOVE : OP_PUT); break;
+                    case 1: kind = x < 45 ? OP_UPUT : (x < 90 ? OP_REMOVE : OP_GET); break;
+                    case 2: kind = x < 60 ? OP_PUT : (x < 80 ? OP_GET : OP_REMOVE); break;
+                    default: kind = x < 30 ? OP_PUT : (x < 50 ? OP_UPUT : (x < 75 ? OP_GET : OP_REMOVE)); break;
+                }
+                plans[t].push_back(Plan{static_cast<uint32_t>(r.below(hot.size())), kind, static_cast<uint32_t>(r.range(24, 300))});
+            }
+        }
+        // initial state
+        std::vector<uint64_t> init(hot.size(), 0);
+        main_ses.reenter();
+        for (std::size_t i = 0; i < hot.size(); ++i) {
+            std::pair<char*, std::size_t> o;
+            if (yget(storage, hot[i], o) == status::OK) {
+                uint64_t id = 0;
+                if (check_value(o.first, o.second, hot[i], id) != ValCheck::OK) { rep.violation("lin:quiescent-get:invalid-value", "quiescent get returned an invalid value", "{}"); }
+                init[i] = id;
+            }
+        }
+        main_ses.leave();
+        std::vector<std::vector<Ev>> tev(T);
+        std::vector<uint32_t> skew(T);
+        for (auto& s : skew) { s = static_cast<uint32_t>(r.below(r.chance(1, 2) ? 60 : 400)); }
+        std::atomic<uint64_t> bad_status{0};
+        run_round(T, seed * 6151 + rc, [&](int tid) {
+            Session ses;
+            ses.reenter();
+            for (uint32_t k = skew[tid]; k > 0; --k) { _mm_pause(); }
+            for (auto& p : plans[tid]) {
+                const std::string& key = hot[p.key];
+                Ev e{};
+                e.thread = static_cast<uint16_t>(tid);
+                e.key = p.key;
+                e.kind = static_cast<OpKind>(p.kind);
+                if (p.kind == OP_PUT || p.kind == OP_UPUT) {
+                    e.arg = next_id.fetch_add(1);
+                    std::string v = make_value(e.arg, key, p.len);
+                    e.inv = stamp();
+                    status s = yput(ses.tok, storage, key, v, p.kind == OP_UPUT, 8);
+                    e.resp = stamp();
+                    if (s == status::OK) {
+                        e.out = OUT_OK;
+                    } else if (s == status::WARN_UNIQUE_RESTRICTION && p.kind == OP_UPUT) {
+                        e.out = OUT_UNIQUE;
+                    } else {
+                        bad_status.fetch_add(1);
+                        continue;
+                    }
+                } else if (p.kind == OP_GET) {
+                    std::pair<char*, std::size_t> o;
+                    e.inv = stamp();
+                    status s = yget(storage, key, o);
+                    e.resp = stamp();
+                    if (s == status::OK) {
+                        e.out = OUT_OK;
+                        ValCheck vc = check_value(o.first, o.second, key, e.val);
+                        if (vc != ValCheck::OK) {
+                            rep.violation(std::string("lin:get:") + valcheck_name(vc), "OK get returned a null / torn / foreign value", JObj().str("shape", shape).str("key", hex(key)).num("len", o.second).done());
+                            continue;
+                        }
+                    } else if (s == status::WARN_NOT_EXIST) {
+                        e.out = OUT_ABSENT;
+                    } else {
+                        bad_status.fetch_add(1);
+                        continue;
+                    }
+                } else {
+                    e.inv = stamp();
+                    status s = yk::remove(ses.tok, storage, key);
+                    e.resp = stamp();
+                    if (s == status::OK) {
+                        e.out = OUT_OK;
+                    } else if (s == status::OK_NOT_FOUND || s == status::OK_ROOT_IS_NULL) {
+                        e.out = OUT_ABSENT;
+                    } else {
+                        bad_status.fetch_add(1);
+                        continue;
+                    }
+                }
+                tev[tid].push_back(e);
+            }
+            ses.leave();
+        });
+        if (bad_status.load() != 0) { rep.violation("lin:unexpected-status", "an operation returned a status outside its documented set", JObj().str("shape", shape).done()); }
+        // read-back + check
+        std::vector<std::vector<Ev>> per_key(hot.size());
+        for (auto& tv : tev) {
+            for (auto& e : tv) { per_key[e.key].push_back(e); }
+        }
+        main_ses.reenter();
+        for (std::size_t i = 0; i < hot.size(); ++i) {
+            Ev e{};
+            e.kind = OP_GET;
+            e.thread = 999;
+            e.key = static_cast<uint32_t>(i);
+            std::pair<char*, std::size_t> o;
+            e.inv = stamp();
+            status g = yget(storage, hot[i], o);
+            e.resp = stamp();
+            if (g == status::OK) {
+                e.out = OUT_OK;
+                if (check_value(o.first, o.second, hot[i], e.val) != ValCheck::OK) {
+                    rep.violation("lin:quiescent-get:invalid-value", "quiescent get returned an invalid value", JObj().str("shape", shape).done());
+                    continue;
+                }
+            } else {
+                e.out = OUT_ABSENT;
+            }
+            per_key[i].push_back(e);
+        }
+        main_ses.leave();
+        for (std::size_t i = 0; i < hot.size(); ++i) {
+            auto& h = per_key[i];
+            if (h.size() <= 1) { continue; }
+            std::sort(h.begin(), h.end(), [](const Ev& x, const Ev& y) { return x.inv < y.inv; });
+            bool any_overlap = false;
+            uint64_t pat = hash_bytes(shape);
+            for (std::size_t x = 0; x < h.size(); ++x) {
+                pat = mix64(pat, h[x].kind * 4 + h[x].out);
+                for (std::size_t y = x + 1; y < h.size() && h[y].inv < h[x].resp; ++y) {
+                    any_overlap = true;
+                    pat = mix64(pat, 0x100 + (y - x));
+                }
+            }
+            rep.eval();
+            LinResult lr = chk.check(h, init[i]);
+            if (any_overlap) {
+                ++overlaps;
+                rep.distinct(pat);
+            }
+            if (lr.verdict == 0) {
+                std::vector<std::string> hist;
+                for (auto& e : h) { hist.push_back(ev_json(e)); }
+                rep.violation("lin:not-linearizable", "no sequential order of this key's operations respects real time and map semantics",
+                              JObj().str("shape", shape).str("key", hex(hot[i])).num("initial_value", init[i]).num("threads", T).num("fillers", fillers.size()).num("race", rc).raw("history", jarr(hist)).done());
+            } else if (any_overlap && rep.get("samples_taken") < 3) {
+                std::vector<std::string> hist;
+                for (auto& e : h) { hist.push_back(ev_json(e)); }
+                rep.sample(JObj().str("shape", shape).str("key", hex(hot[i])).num("initial_value", init[i]).raw("history", jarr(hist)).str("verdict", "linearizable").done());
+                rep.count("samples_taken");
+            }
+        }
+        rep.count("races");
+    }
+    rep.count("key_histories_with_overlap", overlaps);
+    yk::delete_storage(storage);
+    yk::fin();
+    drain_alloc_problems(rep);
+    if (overlaps < 100) { rep.inconclusive("fewer than 100 key histories with overlapping operations"); }
+    return rep.finish();
+}
